@@ -21,9 +21,9 @@ func cmdDeterminism(args []string) int {
 	procs := fs.Int("procs", runtime.NumCPU(), "")
 	worlds := fs.Int("worlds", 0, "")
 	fs.Parse(args)
-	ts := tierSize{3200, 2000}
+	ts := tierSize{2400, 2000}
 	if *tier == "thorough" {
-		ts = tierSize{32000, 3000}
+		ts = tierSize{24000, 3000}
 	}
 	if *worlds > 0 {
 		ts.worlds = *worlds
